@@ -64,6 +64,12 @@ def configs():
             for B, nets, rsv in ((8, None, None), (0, ["10.9.0.0/16"], ["KeepMe"])):
                 out.append({"pwd": pwd, "ip": ip, "undo": undo, "word": word, "as": asn, "B": B,
                             "nets": nets, "rsv": rsv, "salt": "saltForTest"})
+    # salts are arbitrary strings, the empty one included
+    for salt in ("", " ", "0"):
+        out.append({"pwd": True, "ip": True, "undo": False, "word": True, "as": True, "B": 8, "nets": None,
+                    "rsv": None, "salt": salt})
+        out.append({"pwd": False, "ip": True, "undo": True, "word": False, "as": False, "B": 8, "nets": None,
+                    "rsv": None, "salt": salt})
     return out
 
 
@@ -86,6 +92,28 @@ def run_obj(fa, text):
     out = io.StringIO()
     fa.anonymize_io(io.StringIO(text, newline=""), out)
     return out.getvalue()
+def run_dir(c, files, root):
+    import os, shutil
+    from netconan.anonymize_files import anonymize_files
+    ind, outd = os.path.join(root, "in"), os.path.join(root, "out")
+    shutil.rmtree(root, ignore_errors=True)
+    for rel, content in files.items():
+        os.makedirs(os.path.dirname(os.path.join(ind, rel)), exist_ok=True)
+        with open(os.path.join(ind, rel), "w") as f:
+            f.write(content)
+    anonymize_files(ind, outd, c["pwd"], c["ip"] and not c["undo"], salt=c["salt"],
+                    sensitive_words=list(WORDS) if c["word"] else None, undo_ip_anon=c["ip"] and c["undo"],
+                    as_numbers=list(ASNS) if c["as"] else None, reserved_words=list(c["rsv"]) if c["rsv"] else None,
+                    preserve_networks=list(c["nets"]) if c["nets"] else None,
+                    preserve_suffix_v4=c["B"], preserve_suffix_v6=c["B"], dumpfile=os.path.join(root, "map.txt") if c["ip"] and not c["undo"] else None)
+    res = {}
+    for d, _, fs in os.walk(outd):
+        for f in fs:
+            res[os.path.relpath(os.path.join(d, f), outd)] = open(os.path.join(d, f)).read()
+    if os.path.exists(os.path.join(root, "map.txt")):
+        res["<map>"] = open(os.path.join(root, "map.txt")).read()
+    shutil.rmtree(root, ignore_errors=True)
+    return res
 def do_event(e):
     from netconan.anonymize_files import FileAnonymizer
     from netconan import ip_anonymization, sensitive_item_removal
@@ -222,14 +250,19 @@ class HashSeeds(Part):
         seeds = sorted(set(orders.values()) | {1000 + self.seed * 8 + i for i in range(8)})
         if "seeds" in case:
             seeds = case["seeds"]
-        cfgs = [c for c in configs() if c["word"] and c["B"] == 8]
+        cfgs = sorted([c for c in configs() if c["word"] and c["B"] == 8], key=lambda c: (not c["pwd"], not c["ip"], c["undo"]))
         text = TEXT + "".join(" ".join(p) + "\n" for p in itertools.permutations(
             [w for w in words] + [words[-1] + "x" + words[0]], 2))
+        files = {"r%d/%s.cfg" % (i % 3, nm): "hostname %s\npassword secretOf%s\nenable secret other%d\n ip address 10.%d.2.3 255.255.255.0\n" % (
+            nm, nm, i, i) for i, nm in enumerate(["alpha", "bravo", "charlie", "delta", "echo", "foxtrot", "golf"])}
         code = LIB + "\nimport sys\nWORDS=%r\nASNS=%r\nlogging.disable(logging.CRITICAL)\njob=json.loads(sys.stdin.read())\n" \
-            "print(json.dumps([run_cfg(c, job['text']) for c in job['cfgs']]))\n" % (words, ASNS)
+            "print(json.dumps([run_cfg(c, job['text']) for c in job['cfgs']] + [run_dir(c, job['files'], job['root']) for c in job['cfgs'][:3]]))\n" % (words, ASNS)
         base = None
         for s in seeds:
-            cp = seams.run_py(code, hashseed=s, stdin=json.dumps({"cfgs": cfgs, "text": text}))
+            import os as _os
+            cp = seams.run_py(code, hashseed=s, stdin=json.dumps({
+                "cfgs": cfgs, "text": text, "files": files,
+                "root": _os.path.join(seams.scratch_dir("c13d"), "w")}))
             res.evals += 1
             res.traces += 1
             if cp.returncode != 0:
@@ -243,6 +276,13 @@ class HashSeeds(Part):
                 continue
             if outs != base[1]:
                 ci = [i for i, (a, b) in enumerate(zip(outs, base[1])) if a != b][0]
+                if isinstance(outs[ci], dict):
+                    fn = [k for k in outs[ci] if outs[ci].get(k) != base[1][ci].get(k)][0]
+                    res.violation("directory-run-depends-on-hash-seed",
+                                  "PYTHONHASHSEED=%d: file %s is %r, under PYTHONHASHSEED=%d %r" % (
+                                      s, fn, outs[ci].get(fn), base[0], base[1][ci].get(fn)),
+                                  {"words": words, "seeds": [base[0], s]})
+                    continue
                 la, lb = outs[ci].split("\n"), base[1][ci].split("\n")
                 li = [i for i, (a, b) in enumerate(zip(la, lb)) if a != b][0]
                 res.violation("output-depends-on-hash-seed|words=" + ",".join(words),
